@@ -534,11 +534,11 @@ class CParser:
             return tok_type == "ID"
         return tok_type in {"ID", "TYPEID"}
 
-    def _peek_declarator_name_info(self) -> Tuple[Optional[str], bool]:
+    def _peek_declarator_name_info(self) -> Tuple[Optional[str], bool, bool]:
         mark = self._mark()
-        tok_type, saw_paren = self._scan_declarator_name_info()
+        info = self._scan_declarator_name_info()
         self._reset(mark)
-        return tok_type, saw_paren
+        return info
 
     def _parse_any_declarator(
         self, allow_abstract: bool = False, typeid_paren_as_abstract: bool = False
@@ -547,10 +547,15 @@ class CParser:
         #   int foo(int (aa));   -> aa is a name (ID)
         #   typedef char TT;
         #   int bar(int (TT));   -> TT is a type (TYPEID) in parens
-        name_type, saw_paren = self._peek_declarator_name_info()
-        if name_type is None or (
-            typeid_paren_as_abstract and name_type == "TYPEID" and saw_paren
-        ):
+        #   int baz(int (*TT));  -> TT is a name again: a type cannot follow '*'
+        name_type, saw_paren, ptr_in_paren = self._peek_declarator_name_info()
+        typeid_is_type = (
+            typeid_paren_as_abstract
+            and name_type == "TYPEID"
+            and saw_paren
+            and not ptr_in_paren
+        )
+        if name_type is None or typeid_is_type:
             if not allow_abstract:
                 tok = self._peek()
                 coord = self._tok_coord(tok) if tok is not None else self.clex.filename
@@ -559,7 +564,7 @@ class CParser:
             return decl, False
 
         if name_type == "TYPEID":
-            if typeid_paren_as_abstract:
+            if typeid_paren_as_abstract and not saw_paren:
                 decl = self._parse_typeid_noparen_declarator()
             else:
                 decl = self._parse_typeid_declarator()
@@ -567,28 +572,32 @@ class CParser:
             decl = self._parse_id_declarator()
         return decl, True
 
-    def _scan_declarator_name_info(self) -> Tuple[Optional[str], bool]:
+    def _scan_declarator_name_info(self) -> Tuple[Optional[str], bool, bool]:
+        """Returns (type of the name token or None, whether the name is inside
+        parentheses, whether a '*' stands between the innermost '(' and the
+        name)."""
         saw_paren = False
+        saw_star = False
         while self._accept("TIMES"):
+            saw_star = True
             while self._peek_type() in _TYPE_QUALIFIER:
                 self._advance()
 
         tok = self._peek()
         if tok is None:
-            return None, saw_paren
+            return None, saw_paren, False
         if tok.type in {"ID", "TYPEID"}:
             self._advance()
-            return tok.type, saw_paren
+            return tok.type, saw_paren, saw_star
         if tok.type == "LPAREN":
-            saw_paren = True
             self._advance()
             # The name (if any) is the first thing inside the innermost
             # parentheses; there is no need to skip to the matching ')' - the
             # caller rewinds anyway, and skipping the rest of the group at
             # every nesting level made nested declarators cost quadratic time.
-            tok_type, _ = self._scan_declarator_name_info()
-            return tok_type, saw_paren
-        return None, saw_paren
+            tok_type, _, ptr_in_paren = self._scan_declarator_name_info()
+            return tok_type, True, ptr_in_paren
+        return None, saw_paren, False
 
     def _starts_direct_abstract_declarator(self) -> bool:
         return self._peek_type() in {"LPAREN", "LBRACKET"}
@@ -689,7 +698,7 @@ class CParser:
             allow_no_type=True
         )
 
-        name_type, _ = self._peek_declarator_name_info()
+        name_type, _, _ = self._peek_declarator_name_info()
         if name_type != "ID":
             decls = self._parse_decl_body_with_spec(spec, saw_type)
             self._expect("SEMI")
